@@ -480,6 +480,22 @@ Proof.
   intros Hsd. split; [apply paths_sound_simple; exact Hsd | apply paths_complete].
 Qed.
 
+(* collections of sources / destinations: entry [s][d] is exactly the single-pair answer *)
+Theorem paths_multi_pairwise srcs dsts :
+  (forall s row d ps, In (s, row) (paths_multi nl srcs dsts) -> In (d, ps) row ->
+     In s srcs /\ In d dsts /\ ps = paths nl s d)
+  /\ (forall s d, In s srcs -> In d dsts ->
+       exists row, In (s, row) (paths_multi nl srcs dsts) /\ In (d, paths nl s d) row).
+Proof.
+  unfold paths_multi. split.
+  - intros s row d ps H1 H2. apply in_map_iff in H1. destruct H1 as [s' [E Hs]].
+    injection E as <- <-. apply in_map_iff in H2. destruct H2 as [d' [E Hd]].
+    injection E as <- <-. auto.
+  - intros s d Hs Hd. exists (map (fun d0 => (d0, paths nl s d0)) dsts). split.
+    + apply in_map_iff. exists s. split; [reflexivity | exact Hs].
+    + apply in_map_iff. exists d. split; [reflexivity | exact Hd].
+Qed.
+
 End PP.
 
 (* ---------- the two witnesses ---------- *)
